@@ -250,7 +250,7 @@ def oracle_c04(case, out):
         if o == "SetEvalMonitor":
             if emon_from is None:
                 emon_from = s["ncalls"]
-            if op["new"]:
+            if op["new"] and not op.get("same"):     # (the monitor in use handed over again keeps its records)
                 emon_from = s["ncalls"]
                 if s["ncalls"] > 0:
                     emon_new_midrun = True
@@ -426,6 +426,83 @@ def oracle_collapse(case, out):
     return f
 
 
+# ---- the one-line wrappers (fmin, fmin_powell, diffev, diffev2): returned counts and warnflag vs what really happened
+WRAP_SCALE = {"fmin": (1, 200, 200), "fmin_powell": (1, 1000, 1000), "diffev": (None, 10, 1000), "diffev2": (None, 10, 1000)}   # npop, iterscale, evalscale (Core/NM.v, Powell.v, DE.v)
+
+
+class RosenCost(object):
+    """harness-owned cost: a Rosenbrock valley (hard: runs hit their limits) or a bowl (easy: runs converge); counts its calls"""
+    def __init__(self, kind):
+        self.kind, self.n = kind, 0
+    def __call__(self, x):
+        self.n += 1
+        x = [float(v) for v in x]
+        if self.kind == "bowl":
+            return sum((v - 0.5) ** 2 for v in x)
+        return sum(100.0 * (x[i + 1] - x[i] ** 2) ** 2 + (1 - x[i]) ** 2 for i in range(len(x) - 1)) + (0.0 if len(x) > 1 else (x[0] - 1) ** 2)
+
+
+def gen_wrapper(rng):
+    w = rng.choice(["fmin", "fmin_powell", "diffev", "diffev2"])
+    ndim = rng.choice([1, 2, 3, 4]) if w != "fmin" else rng.choice([2, 3, 5, 6])
+    return dict(kind="wrapper", solver=w, ndim=ndim, npop=rng.choice([4, 6, 10]), cost=rng.choice(["rosen", "rosen", "bowl"]),
+                maxiter=rng.choice([None, None, 0, 1, 3, 25]), maxfun=rng.choice([None, None, 1, 7, 60]),
+                x0=[G.grid(rng, -2, 2) for _ in range(ndim)], seed=rng.randrange(10 ** 6))
+
+
+def run_wrapper(case):
+    import random as _r, io, contextlib, warnings
+    import numpy as np
+    from mystic.monitors import Monitor
+    from mystic.solvers import fmin, fmin_powell, diffev, diffev2
+    with warnings.catch_warnings():
+        warnings.simplefilter("ignore")
+        with contextlib.redirect_stdout(io.StringIO()):
+            _r.seed(case["seed"]); np.random.seed(case["seed"] % (2 ** 31))
+            cost = RosenCost(case["cost"]); em, sm = Monitor(), Monitor()
+            w = case["solver"]
+            kw = dict(maxiter=case["maxiter"], maxfun=case["maxfun"], full_output=1, disp=0, evalmon=em, itermon=sm, handler=False)
+            if w == "fmin":
+                r = fmin(cost, list(case["x0"]), **kw)
+            elif w == "fmin_powell":
+                r = fmin_powell(cost, list(case["x0"]), **kw)
+            else:
+                r = (diffev if w == "diffev" else diffev2)(cost, list(case["x0"]), npop=case["npop"], **kw)
+            return dict(x=[float(v) for v in np.atleast_1d(r[0])], fval=float(np.ravel(r[1])[0]), iters=int(r[2]), fcalls=int(r[3]), warnflag=int(r[4]),
+                        real=cost.n, nem=len(em), nsm=len(sm), nstep=len(sm),
+                        x_evaluated=any([float(v) for v in np.atleast_1d(p)] == [float(v) for v in np.atleast_1d(r[0])] for p in em.x),
+                        cost_at_x=float(RosenCost(case["cost"])(np.atleast_1d(r[0]))),
+                        last_logged=([float(v) for v in np.atleast_1d(sm.x[-1])], float(np.ravel(sm.y[-1])[0])) if len(sm) else None)
+
+
+def oracle_wrapper(case, out):
+    site = "solvers." + case["solver"]
+    if "__exception__" in out:
+        return [fail("no-crash", site, out["__exception__"], out.get("__msg__"))]
+    f = []
+    npop, isc, esc = WRAP_SCALE[case["solver"]]
+    npop = case["npop"] if npop is None else npop
+    mi = case["maxiter"] if case["maxiter"] is not None else case["ndim"] * npop * isc
+    mf = case["maxfun"] if case["maxfun"] is not None else case["ndim"] * npop * esc
+    if out["fcalls"] != out["real"]:
+        f.append(fail("counter_is_calls", site, "wrapper-funcalls-differ-from-real-calls", dict(returned=out["fcalls"], real=out["real"])))
+    want = 1 if out["real"] >= mf else (2 if out["iters"] >= mi else 0)
+    if out["warnflag"] != want:
+        f.append(fail("message_is_true", site, "wrapper-warnflag-not-true-of-final-state",
+                      dict(warnflag=out["warnflag"], expected=want, evaluations=out["real"], iterations=out["iters"], maxiter_in_force=mi, maxfun_in_force=mf)))
+    if not out["x_evaluated"]:
+        f.append(fail("best_is_evaluated", site, "wrapper-result-never-evaluated", dict(x=out["x"])))
+    if out["fval"] != out["cost_at_x"]:
+        f.append(fail("best_energy_is_cost", site, "wrapper-fval-is-not-cost-at-x", dict(x=out["x"], fval=out["fval"], cost=out["cost_at_x"])))
+    if out["last_logged"] is not None and out["last_logged"][1] != out["fval"]:
+        f.append(fail("last_is_reported", site, "wrapper-last-logged-energy-not-fval", dict(last=out["last_logged"], fval=out["fval"])))
+    if out["nem"] != out["real"]:
+        f.append(fail("evalmon_is_calls", site, "wrapper-evalmon-length-differs-from-real-calls", dict(monitor=out["nem"], real=out["real"])))
+    if out["iters"] > mi and out["iters"] > 0:
+        f.append(fail("limits_honoured", site, "wrapper-iterations-exceed-limit", dict(iterations=out["iters"], maxiter_in_force=mi)))
+    return f
+
+
 def gen_ensemble(rng):
     ndim = rng.choice([1, 2])
     return dict(kind="ensemble", ens=rng.choice(["lattice", "buckshot"]), nested=rng.choice(["DE", "DE2", "NM", "POW"]), ndim=ndim,
@@ -521,7 +598,7 @@ def coq_preamble():
 
 def make_coq_terms(mask):
     def coq_terms(case, out):
-        if "__exception__" in out or case.get("kind") in ("collapse", "ensemble") or not L.modelled(case):
+        if "__exception__" in out or case.get("kind") in ("collapse", "ensemble", "wrapper") or not L.modelled(case):
             return []
         return [L.check_term(case, out, mask)]
     return coq_terms
@@ -532,8 +609,10 @@ def coq_debug(case, out, k):
 
 
 def classify(case, out):
-    if case.get("kind") in ("collapse", "ensemble"):
+    if case.get("kind") in ("collapse", "ensemble", "wrapper"):
         tags = ["kind:" + case["kind"], "solver:" + case.get("solver", case.get("nested", "?"))]
+        if case["kind"] == "wrapper" and "__exception__" not in out:
+            tags += ["warnflag:%d" % out["warnflag"], "limits:%s/%s" % ("default" if case["maxiter"] is None else "given", "default" if case["maxfun"] is None else "given")]
         if "__exception__" in out:
             return json.dumps(case, sort_keys=True), False, tags + ["exception:" + out["__exception__"]]
         n = out.get("nstep", len(out.get("snaps", [])))
